@@ -38,9 +38,13 @@ Fixpoint flat_vals (fuel : nat) (v : node) : list node :=
   | S f =>
       match v with
       | Arr es =>
-          if forallb (fun e => match e with Elem false _ => true | _ => false end) es
-          then flat_map (fun e => match e with Elem false x => flat_vals f x | _ => [] end) es
-          else [v]
+          (* Vue flattens nested arrays of class / style / listener values; a spread element stays a
+             spread, a hole a hole *)
+          flat_map (fun e => match e with
+                             | Elem false x => flat_vals f x
+                             | Elem true x => [Spread x]
+                             | other => [other]
+                             end) es
       | _ => [v]
       end
   end.
@@ -313,7 +317,7 @@ Definition attr_spec (is_comp : bool) (tag : node) (all_attrs : list node) (a : 
       | Some d =>
           let parts := spec_directive_parts d value in
           let first_or_self := match value with
-                               | Str _ _ => Some value
+                               | Str v _ => Some (mk_str v)
                                | JExprC JEmpty => None
                                | JExprC (Arr (Elem false x :: _)) => Some x
                                | JExprC e => Some e
